@@ -87,8 +87,18 @@ def run(F):
         root = fn.split("::{closure")[0]
         key = (root, what.split(" ")[0])
         seen.setdefault(key, []).append((span, order, what))
+    callers = {}
+    for b_ in F.bodies:
+        src = b_.path.split("::{closure")[0]
+        for bi_, t_ in b_.calls():
+            cb_ = F.callee_body(t_)
+            if cb_ is not None and not cb_.is_closure():
+                callers.setdefault(cb_.path, set()).add(src)
     for (root, kind), sites in sorted(seen.items()):
         rows = [t for t in table if root.endswith(t["fn"]) and t["kind"] == kind]
+        if not rows and (F.body(root) is not None and F.body(root).get("vis") != "Public"):
+            # the singular expression (with its guard) was extracted into a private helper: the review of the calling functions applies
+            rows = [t for c in sorted(callers.get(root, ())) for t in table if c.endswith(t["fn"]) and t["kind"] == kind]
         iid = "singular|%s|%s" % (root, kind)
         guard_ok = True
         if rows and rows[0].get("requires_guard"):
